@@ -13,7 +13,7 @@
 // is enumerated (no sampling); sources are generated from (mode, place) for three notations
 // (.wa, .wz, hand-written .wat); the module-directory kind puts the .wa text under
 // app/src/main.wa next to a wa.mod, the .wasm kind is what `wa build prog.wa` writes.
-// Only the exit status is judged. Timeouts (120 s for a ~0.3 s run) only classify hangs.
+// Only the exit status is judged. Timeouts (600 s for a ~0.3 s run) only classify hangs.
 package main
 
 import (
@@ -41,11 +41,10 @@ var (
 	workDir string
 )
 
-// Horizons only classify hangs. A normal run costs ~0.3 s; the stack-exhaustion runs cost a few
-// seconds (wazero renders a stack trace of several hundred thousand frames, ~27 MB of text).
+// Horizons only classify hangs. A normal run costs ~0.3 s (1000x = 300 s); the horizon is 2000x.
 const (
-	hangHorizon      = 300 * time.Second
-	hangHorizonAlone = 900 * time.Second
+	hangHorizon      = 600 * time.Second
+	hangHorizonAlone = 1200 * time.Second
 )
 
 // capBuf keeps the head and the tail of what a process printed.
@@ -206,6 +205,40 @@ func (c caseSpec) String() string {
 	return fmt.Sprintf("%s|%s|%s|args=%v|noverb=%v", c.Mode.Name, c.Place, c.Kind, c.Args, c.NoVerb)
 }
 
+// Unbounded recursion with a fat frame: recLocals values stay live across the recursive call, so
+// the engine's stack ceiling is reached after ~50 000 calls instead of ~800 000 and the stack
+// trace wazero prints is ~1.5 MB instead of ~27 MB (the run then costs what any other run costs).
+const recLocals = 48
+
+func fatRec(head, def, call, ret, use, end string) string {
+	var b strings.Builder
+	b.WriteString(head + "\n")
+	for i := 0; i < recLocals; i++ {
+		b.WriteString("\t" + fmt.Sprintf(def, i, i+1) + "\n")
+	}
+	b.WriteString("\t" + call + "\n\t" + ret)
+	for i := 0; i < recLocals; i++ {
+		b.WriteString(" + " + fmt.Sprintf(use, i))
+	}
+	b.WriteString("\n" + end)
+	return b.String()
+}
+
+func watRecBody() string {
+	var b strings.Builder
+	for i := 0; i < recLocals; i++ {
+		fmt.Fprintf(&b, "        (local $v%d i32)\n", i)
+	}
+	for i := 0; i < recLocals; i++ {
+		fmt.Fprintf(&b, "        local.get $n\n        i32.const %d\n        i32.add\n        local.set $v%d\n", i+1, i)
+	}
+	b.WriteString("        local.get $v0\n        call $rec\n")
+	for i := 0; i < recLocals; i++ {
+		fmt.Fprintf(&b, "        local.get $v%d\n        i32.add\n", i)
+	}
+	return b.String()
+}
+
 // ---------------------------------------------------------------------------------------------
 // source generation: .wa
 
@@ -228,7 +261,7 @@ func waSource(m mode, place string) string {
 		pre = []string{"global gbig: int = 400000000"}
 		act = []string{"s := make([]int, 2)", "println(s[gbig])"}
 	case m.Name == mStack.Name:
-		pre = []string{"func rec(n: int) => int { return rec(n+1) + 1 }"}
+		pre = []string{fatRec("func rec(n: int) => int {", "v%d := n + %d", "r := rec(v0)", "return r", "v%d", "}")}
 		act = []string{"println(rec(0))"}
 	case m.Name == mSyntax.Name:
 		act = []string{"x := "}
@@ -282,7 +315,7 @@ func wzSource(m mode, place string) string {
 		pre = []string{"全局·远: 整型 = 400000000"}
 		act = []string{"表 := 构建([]整型, 2)", "输出(表[远])"}
 	case m.Name == mStack.Name:
-		pre = []string{"函数·递归(甲: 整型) => 整型:\n\t返回 递归(甲+1) + 1\n完毕"}
+		pre = []string{fatRec("函数·递归(甲: 整型) => 整型:", "子%d := 甲 + %d", "果 := 递归(子0)", "返回 果", "子%d", "完毕")}
 		act = []string{"输出(递归(0))"}
 	case m.Name == mSyntax.Name:
 		act = []string{"甲 := "}
@@ -368,7 +401,7 @@ func watSource(m mode, place string) string {
 	b.WriteString("    (memory 1)\n    (table 4 funcref)\n    (global $gz (mut i32) (i32.const 0))\n")
 	b.WriteString("    (type $v (func))\n    (type $i (func (param i32) (result i32)))\n")
 	b.WriteString("    (elem (i32.const 1) $act)\n")
-	rec := fn("$rec (param $n i32) (result i32)", "        local.get $n\n        i32.const 1\n        i32.add\n        call $rec\n        i32.const 1\n        i32.add\n")
+	rec := fn("$rec (param $n i32) (result i32)", watRecBody())
 	switch place {
 	case pMain:
 		b.WriteString(fn("$_main (export \"_main\")", actBody+done))
@@ -596,6 +629,9 @@ func enumerate(r *mc.Run) []caseSpec {
 		for _, a := range []bool{false, true} {
 			if noverb && a {
 				continue // the default action only takes a single argument
+			}
+			if a && m.Cls == "exit" && !isExitCodeQuick(m.K) {
+				continue // thorough sweep over k: without program arguments
 			}
 			cases = append(cases, caseSpec{Mode: m, Place: place, Kind: kind, Args: a, NoVerb: noverb})
 		}
